@@ -270,6 +270,9 @@ def run_system(ctx, wd, runs):
     return byrun
 
 
+TRACE_EVS = ("enc", "wire", "dec", "crash", "hang", "end")
+
+
 def signature(cipher, es):
     out = [cipher]
     for e in es:
@@ -282,6 +285,8 @@ def signature(cipher, es):
             out.append(("dec", e["outcome"], e["same"]))
         elif ev == "crash":
             out.append(("crash", frame_of(e["frame"]), e.get("where")))
+        elif ev == "hang":
+            out.append(("hang", e.get("class"), e.get("type")))
         elif ev == "end":
             out.append(("end", e["failed"]))
     return json.dumps(out)
@@ -299,6 +304,8 @@ def trace_lines(cipher, es):
             lines.append({"ev": "dec", "outcome": e["outcome"], "same": bool(e["same"])})
         elif ev == "crash":
             lines.append({"ev": "crash", "frame": frame_of(e["frame"])})
+        elif ev == "hang":
+            lines.append({"ev": "hang"})
         elif ev == "end":
             lines.append({"ev": "end", "failed": bool(e["failed"])})
     return lines
@@ -308,7 +315,7 @@ def validate(ctx, runs, byrun, flip):
     """Validate every recorded run against Tunnel_Trace.tla (identical traces once)."""
     groups = {}
     for rid in sorted(byrun):
-        es = [e for e in byrun[rid] if e["ev"] in ("enc", "wire", "dec", "crash", "end")]
+        es = [e for e in byrun[rid] if e["ev"] in TRACE_EVS]
         groups.setdefault(signature(runs[rid]["cipher"], es), []).append(rid)
     reps = [rids[0] for rids in groups.values()]
     if flip and reps:
@@ -323,7 +330,7 @@ def validate(ctx, runs, byrun, flip):
         part = reps[i:i + chunk]
         lines, index = [], []
         for rid in part:
-            es = [e for e in byrun[rid] if e["ev"] in ("enc", "wire", "dec", "crash", "end")]
+            es = [e for e in byrun[rid] if e["ev"] in TRACE_EVS]
             for j, ln in enumerate(trace_lines(runs[rid]["cipher"], es)):
                 lines.append(ln)
                 index.append((rid, j - 1))
@@ -337,7 +344,7 @@ def validate(ctx, runs, byrun, flip):
         bad = sorted(set(int(x) for x in re.findall(r"BADLINE[^0-9]*(\d+)", res["out"])))
         for ln in bad:
             rid, j = index[ln - 1]
-            es = [e for e in byrun[rid] if e["ev"] in ("enc", "wire", "dec", "crash", "end")]
+            es = [e for e in byrun[rid] if e["ev"] in TRACE_EVS]
             ev = es[j] if 0 <= j < len(es) else {"ev": "reset"}
             report(ctx, runs[rid], es, j, ev, len(groups[signature(runs[rid]["cipher"], es)]) if not flip else 1)
             nbad += 1
@@ -356,6 +363,11 @@ def report(ctx, r, es, j, ev, mult):
         key = "panic|%s|class=%s|mode=%s" % (frame_of(ev["frame"]), cls, mode(cipher))
         what = "system level %s: %s panics (%s) on %s; expected: the message is rejected and the run fails" % (
             where, ev.get("where"), ev["frame"], mut.get("mutant"))
+    elif ev["ev"] == "hang":
+        fr = re.search(r"go-fdo[/.]([^\s(]+(?:\([^)]*\))?[^\s(]*)\(", ev.get("stacks", ""))
+        key = "hang|%s|class=%s|type=%s" % (fr.group(1) if fr else "unknown", cls, r["type"])
+        what = "system level %s %s: the TO2 run with a rewritten message %s (class %s) did not return within %ss" % (
+            r["suite"], cipher, r["type"], cls, ev.get("after_s"))
     elif ev["ev"] == "dec" and ev["outcome"] == "accept" and not ev["same"]:
         key = "decrypt|accepted-modified|class=%s|mode=%s" % (cls, mode(cipher))
         what = "system level %s: the %s accepted a rewritten object (%s) and was handed DIFFERENT plaintext than the sender protected" % (
